@@ -271,7 +271,13 @@ func vfBuildConcTarget(c *vfC11Case, dir string) (*vfConcTarget, error) {
 			return mi.Add(*NewMetadataNodeWithID(id, map[string]interface{}{"n": int(id % 1000), "tag": "t"}))
 		}
 		t.remove = func(id uint32) error { return mi.Remove(*NewMetadataNodeWithID(id, nil)) }
+		var flip atomic.Uint32
 		t.search = func(q []float32) ([]uint32, error) {
+			if flip.Add(1)%2 == 0 {
+				// the unfiltered search ("all documents") reads the index's own document set
+				res, err := mi.NewSearch().Execute()
+				return vfMetaIDs(res), err
+			}
 			res, err := mi.NewSearch().WithFilters(Eq("tag", "t")).Execute()
 			return vfMetaIDs(res), err
 		}
@@ -1070,6 +1076,20 @@ func vfC11StoreClose(c *vfC11Case, ctx *vfCtx, dir string, raceBefore int64) *vf
 	}
 	if closeErr != nil {
 		return vfFail("store: Close racing against %d goroutines failed: %v", G, closeErr)
+	}
+	// the handle is closed now, whatever was going on when Close was called (workload, compaction):
+	// every further call returns, with an error (a call that blocks is reported by the case watchdog)
+	if _, err := st.Add(vfCloneF32(c.Vecs[0]), "after close", map[string]interface{}{"n": 1}); err == nil {
+		return vfFail("store: Add on the handle succeeded after Close had returned")
+	}
+	if err := st.Flush(); err == nil {
+		return vfFail("store: Flush on the handle succeeded after Close had returned")
+	}
+	if _, err := st.NewSearch().WithVector(vfCloneF32(c.Vecs[0])).WithK(3).Execute(); err == nil {
+		return vfFail("store: a search on the handle succeeded after Close had returned")
+	}
+	if err := st.Close(); err == nil {
+		return vfFail("store: a second Close returned nil")
 	}
 	cb, ce := closeBegan.Load(), closeEnded.Load()
 	type life struct {
